@@ -39,7 +39,8 @@ func zzInList(l []string, s string) bool {
 func ZZ_C04_roles() {
 	nNodes, maxPods := 2, 2
 	if nondet.Thorough() {
-		nNodes, maxPods = 3, 3
+		// (three pods over three nodes do not finish in 25 minutes: three pods over two nodes)
+		nNodes, maxPods = 2, 3
 	}
 	c, ds, _, _ := zzStore(nNodes)
 	ds.Spec.Strategy.Canary = &datadoghqv1alpha1.ExtendedDaemonSetSpecStrategyCanary{}
